@@ -83,6 +83,7 @@ class Env(object):
         stub("PData", numpy.ma.array([1.0, 2.0]))
         stub("PFuzzy", numpy.ma.array([0.5, -1.0]), fuzzy=True)
         stub("PNum", 5)
+        stub("PPath", os.path.join("data", "x.csv"))  # a finished command (belonging to no program) whose result is a relative path
         self.prog.add_command(lib["Src"], "USrc", {"V": 1})
         self.prog.add_command(lib["NoOut"], "UNoOut", {"V": 2})
         self.prog.add_command(lib["EEMSRead"], "URead", {"InFileName": os.path.join(self.tmp, "nope.csv"), "InFieldName": "a"})
@@ -94,6 +95,7 @@ class Env(object):
             "PData": {"finished": True, "fuzzy": False, "result": "array", "out": None},
             "PFuzzy": {"finished": True, "fuzzy": True, "result": "array", "out": None},
             "PNum": {"finished": True, "fuzzy": False, "result": "number", "out": None},
+            "PPath": {"finished": True, "fuzzy": False, "result": "path", "out": None},
             "USrc": {"finished": False, "fuzzy": False, "out": "Parameter"},
             "UNoOut": {"finished": False, "fuzzy": False, "out": None},
             "URead": {"finished": False, "fuzzy": False, "out": "Data"},
@@ -541,7 +543,7 @@ RAW_POOL = [
     NP("float32", 0.5), NP("float32", 1.5), NP("float16", -0.75), NP("float64", 2.5), NP("int64", 3), NP("int32", 0), NP("float32", 2.0),
     S("12"), S("-7"), S("+3"), S("1.5"), S(".5"), S("2."), S("abc"), S(""), S("true"), S("False"), S("TRUE"), S("0"), S("1"),
     S("2"), S(" 7 "), S("-1"), S("+-1"), S("--1"), S("\u00b2"), S("\u2460"), S("1\u00b2"), S("\u0663"), S("1_0"), S("1e5"), S("nan"), S("inf"), S("1e999"), S("-Infinity"), S("Float"), S("Integer"), S("Positive Float"), S("Fuzzy"), S("float"),
-    S("PData"), S("PFuzzy"), S("PNum"), S("USrc"), S("UNoOut"), S("URead"), S("UFz"), S("UPrint"), S("Missing"), S("café"),
+    S("PData"), S("PFuzzy"), S("PNum"), S("PPath"), S("USrc"), S("UNoOut"), S("URead"), S("UFz"), S("UPrint"), S("Missing"), S("café"),
     {"t": "path", "kind": "abs_existing"}, {"t": "path", "kind": "abs_missing"}, {"t": "path", "kind": "rel_existing"},
     {"t": "path", "kind": "rel_missing"}, {"t": "path", "kind": "parent_existing"}, {"t": "path", "kind": "parent_shadow"},
     {"t": "path", "kind": "dotslash_existing"}, {"t": "path", "kind": "dotfile_existing"}, {"t": "path", "kind": "spaces_existing"}, {"t": "path", "kind": "named_like_wd"},
@@ -550,7 +552,7 @@ RAW_POOL = [
     {"t": "listarg", "items": [I(1), S("2")]}, {"t": "listarg", "items": [{"t": "listarg", "items": [I(1)]}, {"t": "listarg", "items": []}]},
     {"t": "argitems", "items": [I(1), Fl(2.5)]}, {"t": "argitems", "items": [S("PData")]},
     {"t": "dict", "items": []}, {"t": "dict", "items": [[S("a"), S("b")]]}, {"t": "dict", "items": [[I(1), Fl(2.5)], [S("k"), I(3)]]},
-    {"t": "cmd", "name": "PData"}, {"t": "cmd", "name": "PFuzzy"}, {"t": "cmd", "name": "PNum"}, {"t": "cmd", "name": "USrc"},
+    {"t": "cmd", "name": "PData"}, {"t": "cmd", "name": "PFuzzy"}, {"t": "cmd", "name": "PNum"}, {"t": "cmd", "name": "PPath"}, {"t": "cmd", "name": "USrc"},
     {"t": "cmd", "name": "URead"}, {"t": "cmd", "name": "UFz"}, {"t": "cmd", "name": "UPrint"}, {"t": "cmd", "name": "UNoOut"},
     L({"t": "cmd", "name": "PData"}, {"t": "cmd", "name": "UFz"}), L(S("UNoOut"), S("USrc")),
     {"t": "type", "name": "float"}, {"t": "type", "name": "int"}, {"t": "type", "name": "numpy.float64"},
@@ -562,7 +564,7 @@ def param_specs():
     out = [{"c": "Parameter"}, {"c": "String"}, {"c": "Number"}, {"c": "Boolean"}, {"c": "Tuple"}, {"c": "Data"},
            {"c": "Path", "must_exist": True}, {"c": "Path", "must_exist": False},
            {"c": "DataType", "table": "csv"}, {"c": "DataType", "table": "netcdf"}]
-    for outp in (None, "Data", "Number", "String", "Boolean", "List"):
+    for outp in (None, "Data", "Number", "String", "Boolean", "List", "Path"):
         for fz in (None, True, False):
             out.append({"c": "Result", "out": outp, "fuzzy": fz})
     items = [{"c": "Parameter"}, {"c": "Number"}, {"c": "String"}, {"c": "Boolean"}, {"c": "Result", "out": None, "fuzzy": None},
@@ -599,7 +601,7 @@ def raw_scalars():
         st.from_regex(r"[+-]?(\d{1,4}\.\d{0,4}|\.\d{1,4})", fullmatch=True).map(S),
         st.text(alphabet=st.sampled_from(list("abcTRUEfalse _-/.é")), max_size=8).map(S),
         st.sampled_from(["PData", "PFuzzy", "PNum", "USrc", "UNoOut", "URead", "UFz", "UPrint", "Nope", "True", "FALSE", "Float", "Integer"]).map(S),
-        st.sampled_from(["PData", "PFuzzy", "PNum", "USrc", "UNoOut", "URead", "UFz", "UPrint"]).map(lambda n: {"t": "cmd", "name": n}),
+        st.sampled_from(["PData", "PFuzzy", "PNum", "PPath", "USrc", "UNoOut", "URead", "UFz", "UPrint"]).map(lambda n: {"t": "cmd", "name": n}),
         st.sampled_from(["abs_existing", "abs_missing", "rel_existing", "rel_missing", "parent_existing", "parent_shadow",
                          "dotslash_existing", "dotfile_existing", "spaces_existing", "named_like_wd"]).map(lambda k: {"t": "path", "kind": k}),
     )
